@@ -1,9 +1,14 @@
-"""C08 — vehicle trip state machine and negative-SoC policy (shares the Events unit with C07)."""
+"""C08 — vehicle trip state machine and negative-SoC policy: the Events unit (shared with C07) plus the
+simulation-level predicate on recorded exact runs."""
 import c07
+import sim
 
 
 def run(tier):
-    return c07.run(tier, "C08")
+    return sim.sim_run("C08", tier, sim.check_c08, inject=False, extra_units=[c07.UNIT], n_kernel=(500, 6000))
 
 
-replay = c07.replay
+def replay(payload):
+    if payload["input"].get("unit") == "events":
+        return c07.replay(payload)
+    return sim.sim_replay(payload, sim.check_c08)
